@@ -64,3 +64,14 @@ def g1(a: S0, b: G[int], n: int) -> tuple:
 
 def g2(n: int, a: S0) -> tuple:
 	return ('g2', n, a)
+
+
+def make_h(t: type):
+	"""two closures with one qualified name and different annotations (the container must tell them apart)"""
+	def h(a: t, n: int) -> tuple:  # type: ignore
+		return ('h', a, n)
+	return h
+
+
+hA = make_h(S0)
+hB = make_h(G[int])
